@@ -269,3 +269,39 @@ func H_C16_Memo() {
 		vrt.Assert(n == 1, "memo-called-once")
 	})
 }
+
+// H_C16_OnceCancelErr: as H_C16_OnceCancel, but the function reacts to the cancellation of the
+// context it was given by returning its OWN error (not context.Canceled). That failure is due to
+// the initiator's cancellation, so the caller with a live context must not receive it: it
+// retries and obtains the value; the cancelled caller gets context.Canceled.
+func H_C16_OnceCancelErr() {
+	errAborted := errors.New("aborted because the context was cancelled")
+	active := 0
+	once := promise.NewOnce(func(ctx context.Context) (int, error) {
+		vrt.Atomic(func() {
+			active++
+			vrt.Assert(active == 1, "once-function-overlap")
+		})
+		var err error
+		if ctx.Err() != nil {
+			err = errAborted
+		}
+		vrt.Atomic(func() { active-- })
+		return 7, err
+	})
+	vrt.Go("c1", func() {
+		ctx, cancel := context.WithCancel(context.Background())
+		vrt.CancelAnytime(cancel)
+		v, err := once.Resolve(ctx)
+		if err != nil {
+			vrt.Assert(err == context.Canceled, "once-canceled-caller-error")
+			vrt.Cover("once-caller-cancelled")
+			return
+		}
+		vrt.Assert(v == 7, "once-value")
+	})
+	vrt.Go("c2", func() {
+		v, err := once.Resolve(context.Background())
+		vrt.Assert(err == nil && v == 7, "once-live-caller-got-the-initiators-cancellation-failure")
+	})
+}
